@@ -652,17 +652,32 @@ def prov_sampler_setup(repo, tier="quick"):
         other = []
         # `if not start_fragment: start_fragment = random.choice(...)` in front of one look-up: the parameter when it is
         # given, the drawn name otherwise
+        def _as_param(term):
+            """a local that only holds a copy of the parameter (`name = start_fragment`) reads as the parameter"""
+            if term is not None and term[0] == "var" and len(term) == 3 and len(term[2]) == 1:
+                d0 = fl.defs[term[2][0]]
+                if d0.kind == "assign" and d0.value is not None and not d0.path and fl.canon(d0.value, d0.node) == sf:
+                    return sf
+            return term
         for t, nid in list(cands):
             k = t[2] if t[0] == "sub" and t[1] == fd else None
-            if not (k and k[0] == "var" and k[1] == "start_fragment" and len(k) == 3 and len(k[2]) == 2 and sf is not None):
+            if not (k and k[0] == "var" and len(k) == 3 and len(k[2]) == 2 and sf is not None):
                 continue
             ds = [fl.defs[i] for i in k[2]]
-            pd = [d for d in ds if d.kind == "param"]
-            ad = [d for d in ds if d.kind == "assign" and d.value is not None and not d.path]
+            # the parameter itself, or a local initialised with it
+            pd = [d for d in ds if d.kind == "param" and d.var == "start_fragment"] + \
+                 [d for d in ds if d.kind == "assign" and d.value is not None and not d.path and fl.canon(d.value, d.node) == sf]
+            ad = [d for d in ds if d.kind == "assign" and d.value is not None and not d.path and d not in pd]
             arm = fl._if_arm_of(ad[0]) if len(pd) == 1 and len(ad) == 1 else None
             if not arm or not fi.cfg.dominates(arm[0].id, nid):
                 continue
             tt = fl.canon(arm[0].ast.test, arm[0].id)
+            if tt[0] == "unop" and tt[1] == "not":
+                tt = ("unop", "not", _as_param(tt[2]))
+            elif tt[0] == "cmp" and len(tt[2]) == 2:
+                tt = ("cmp", tt[1], (_as_param(tt[2][0]), tt[2][1]))
+            else:
+                tt = _as_param(tt)
             absent = (tt == ("unop", "not", sf) or (tt[0] == "cmp" and tt[1] == ("is",) and tt[2][0] == sf and tt[2][1] == const(None)))
             present = tt == sf or (tt[0] == "cmp" and tt[1] == ("is not",) and tt[2][0] == sf and tt[2][1] == const(None))
             if (absent and arm[1] == "T") or (present and arm[1] == "F"):
